@@ -33,7 +33,7 @@ type c14Job struct {
 	Closure  bool     `json:"closure"` // visit every package of the import closure, not only the local ones
 	Start    int      `json:"start"`
 	// Literal: for literal-only functions "pkgpath.name" -> per result position -> expected alternatives in source order
-	Literal  map[string][][]c14Exp `json:"literal,omitempty"`
+	Literal map[string][][]c14Exp `json:"literal,omitempty"`
 	// Possible: "pkgpath.name" -> per result position -> the only integer constants that can reach that position
 	Possible map[string][][]string `json:"possible,omitempty"`
 	Progress string                `json:"progress"`
@@ -87,6 +87,7 @@ func childMain() {
 	}
 	w := bufio.NewWriter(out)
 	enc := json.NewEncoder(w)
+	first := map[int]string{} // the first answer per function, for the sweep after everything was asked once
 	for i, fn := range funcs {
 		if i < job.Start {
 			continue
@@ -111,9 +112,37 @@ func childMain() {
 				line.Err = e.Error()
 			}
 			line.Alts, line.HasBody = alts, hasBody
+			if line.Err == "" {
+				_ = ev.Guard(func() error {
+					r, n := p.ResultsOf(fn)
+					first[i] = fmt.Sprintf("%s (n=%d)", r, n)
+					return nil
+				})
+			}
 		}
 		_ = enc.Encode(line)
 		w.Flush() // a crash in the next call must not lose this line
+	}
+	// "the answer is the same on every call": ask again after every function of every package has been asked (what other
+	// packages were asked in between must not matter)
+	for i, fn := range funcs {
+		was, ok := first[i]
+		if !ok {
+			continue
+		}
+		name := funcName(fn)
+		fmt.Fprintf(prog, "BEGIN %d %s\n", i, name)
+		p := u.Package(fn.Pkg().Path())
+		if e := ev.Guard(func() error {
+			r, n := p.ResultsOf(fn)
+			if now := fmt.Sprintf("%s (n=%d)", r, n); now != was {
+				return fmt.Errorf("asked again after all other functions were asked, ResultsOf answers %s; the first answer was %s", now, was)
+			}
+			return nil
+		}); e != nil {
+			_ = enc.Encode(c14Line{Idx: i, Name: name, N: fn.Type().(*types.Signature).Results().Len(), Err: e.Error()})
+			w.Flush()
+		}
 	}
 	_ = enc.Encode(c14Line{Done: true, Total: len(funcs)})
 	w.Flush()
